@@ -74,6 +74,5 @@ def amax(
         a, graded=options["sort_graded"], reverse=options["sort_reverse"]
     )
     indices = numpy.amax(proxy, axis=axis, **kwargs)
-    out = a[numpy.isin(proxy, indices)]
-    out = out[numpy.argsort(indices.ravel())]
+    out = a.ravel()[numpy.argsort(proxy.ravel())[indices.ravel()]]
     return numpoly.reshape(out, indices.shape)
